@@ -221,6 +221,12 @@ pub fn run(o: &mut Out, tier: &str, seed: u64) {
         o.direct(back.as_ref() == Some(&blk), "generated block round-trips through the codec", trunc(&hex(&bytes), 400), format!("{}", back.is_some()), "same block".into());
         block_case(o, &blk, &bytes, "generated");
     }
+    // (4b) value coincidences: the miner transaction's own hash listed among the transaction hashes (first, last, alone, twice),
+    //      and duplicate hashes - the root is over the list as given
+    for variant in 0..8u32 { let mut blk = gen_block(&mut rng, (variant % 4) as usize + 1); let mh = blk.miner_tx.hash();
+        match variant { 0 => blk.tx_hashes = vec![mh], 1 => blk.tx_hashes[0] = mh, 2 => { let l = blk.tx_hashes.len(); blk.tx_hashes[l - 1] = mh; } 3 => { blk.tx_hashes.insert(0, mh); blk.tx_hashes.push(mh); }
+            4 => blk.tx_hashes = vec![mh, mh], 5 => { let h = blk.tx_hashes[0]; blk.tx_hashes.push(h); } 6 => blk.tx_hashes = vec![Hash::null(); 3], _ => { blk.tx_hashes.insert(1.min(blk.tx_hashes.len()), mh); } }
+        let bytes = serialize(&blk); block_case(o, &blk, &bytes, "miner_hash_listed"); }
     // (5) blocks quoted in the library's own tests (includes block 202612 with its 513 transactions)
     let quoted = repo_test_blocks();
     o.notes.push(format!("C06: {} block(s) taken from the tests of src/blockdata/block.rs", quoted.len()));
